@@ -227,6 +227,7 @@ func TestVerifC14(t *testing.T) {
 	rep.Floor("pw_backend_errors", 5)
 	rep.Floor("totp_spacing_checked", 3)
 	rep.Floor("totp_lockout_checked", 1)
+	rep.Floor("totp_outage_lockout_checked", 1)
 	rep.Floor("totp_slow_guessing_checked", 1)
 	rep.Floor("totp_overlap_rounds_decided", 2) // judged, or found impossible because the tree serialises the two guesses
 	rep.Floor("totp_relogin_checked", 1)
@@ -501,7 +502,10 @@ func c14TOTP(t *testing.T, rep *verifReport) {
 		}
 	}()
 	wg.Wait()
+	outageDone := make(chan struct{})
+	go func() { defer close(outageDone); c14TOTPOutage(rep) }()
 	c14TOTPOverlap(rep)
+	<-outageDone
 }
 
 // c14TOTPOverlap: a guess that arrives while another guess for the same user is still being evaluated.  The first
@@ -509,6 +513,91 @@ func c14TOTP(t *testing.T, rep *verifReport) {
 // suspension point seen through the interposing SQL driver - and a second guess is sent meanwhile.  Both lie inside
 // one 2-second window (harness-bracketed), so the second must not be evaluated: the limiter's failure counter, read at
 // the quiescent point before the first guess is released, must not have moved.
+// c14TOTPOutage: the guessing limits while the primary store does not answer and profiles come from the offline cache
+// (logins and code checks continue then; so must the throttling).  5 evaluated failures paced past the 2-s window,
+// then the correct code: it must be locked out exactly as with the store reachable.
+func c14TOTPOutage(rep *verifReport) {
+	env, err := verifNewEnv(verifStateOpts{Name: "c14-outage", AllowedCerts: []string{"TOTP"}, AllowedWebUI: []string{"password"}, EnableTOTP: true,
+		Users: map[string]string{"x": "y"}})
+	if err != nil {
+		rep.Inconc("totp outage env: %v", err)
+		return
+	}
+	env.SetPasswordChecker(verifPWFunc(func(u string, p []byte) (bool, error) { return string(p) == "pw-"+u, nil }))
+	primary, _, err := env.HookDBs()
+	if err != nil {
+		rep.Inconc("totp outage: hook: %v", err)
+		return
+	}
+	trust, err := verifPublishedTrust(env)
+	if err != nil {
+		rep.Inconc("totp outage: trust: %v", err)
+		return
+	}
+	name := "out1"
+	ck, _ := verifLogin(env, name, "pw-"+name)
+	secret, err := verifEnrollTOTP(env, ck)
+	if err != nil {
+		rep.Inconc("totp outage: enrol: %v", err)
+		return
+	}
+	env.ShiftTOTPLimiter(name, 3*time.Second)
+	env.SyncCache()
+	gate := newVerifOutage()
+	verifSQL.SetHook(primary, gate.Hook)
+	env.SetOutage(gate, true)
+	defer func() {
+		env.SetOutage(gate, false)
+		verifSQL.SetHook(primary, nil)
+	}()
+	post := func(code string) (bool, int) {
+		r := env.Do(verifReq{Method: "POST", Path: "/api/v0/TOTPAuth", Form: url.Values{"OTP": {code}}, Cookies: verifCk(ck)}.Build())
+		if c := r.Cookie("auth_cookie"); c != nil {
+			if _, bits, ok := verifCookieInfo(c.Value, trust.Keys); ok && bits&verifBit["TOTP"] != 0 {
+				return true, r.Code
+			}
+		}
+		return false, r.Code
+	}
+	wrong := func() string {
+		for _, c := range []string{"000000", "000001", "123456", "999999"} {
+			if c != verifTOTPCode(secret, time.Now()) && c != verifTOTPCode(secret, time.Now().Add(-30*time.Second)) && c != verifTOTPCode(secret, time.Now().Add(30*time.Second)) {
+				return c
+			}
+		}
+		return "555555"
+	}
+	var codes []int
+	for i := 0; i < 5; i++ {
+		time.Sleep(2050 * time.Millisecond)
+		h, code := post(wrong())
+		codes = append(codes, code)
+		if h {
+			rep.Violate("C14/totp/wrong-code-honoured-during-outage", "a wrong code was honoured while the primary store was unreachable", map[string]interface{}{"statuses": codes})
+			return
+		}
+	}
+	_, fc, _ := env.TOTPLimiter(name)
+	time.Sleep(2050 * time.Millisecond)
+	h, code := post(verifTOTPCode(secret, time.Now()))
+	lock, _, _ := env.TOTPLimiter(name)
+	gate.mu.Lock()
+	reads := gate.Reads
+	gate.mu.Unlock()
+	rep.Eval(fmt.Sprintf("totp|lockout-after-5-during-outage|honoured=%v|reads-from-cache=%v", h, reads > 0))
+	c := map[string]interface{}{"user": name, "failure_statuses": codes, "evaluated_failures_recorded": fc, "status": code, "lockout_remaining_s": lock.Seconds(), "profile_reads_that_met_the_closed_store": reads}
+	if reads == 0 {
+		rep.Obs("totp outage: no profile read met the closed store (not judged)")
+		return
+	}
+	rep.Count("totp_outage_lockout_checked", 1)
+	if h {
+		rep.Violate("C14/totp/no-lockout-after-5-failures-during-store-outage", "with the primary store unreachable (profiles from the offline cache), the correct code was honoured after 5 evaluated failures: guessing is not throttled during an outage", c)
+		return
+	}
+	rep.Sample("totp-lockout-5-during-outage", 1, c)
+}
+
 func c14TOTPOverlap(rep *verifReport) {
 	env, err := verifNewEnv(verifStateOpts{Name: "c14-overlap", AllowedCerts: []string{"TOTP"}, AllowedWebUI: []string{"password"}, EnableTOTP: true,
 		Users: map[string]string{"x": "y"}})
